@@ -953,17 +953,11 @@ pub fn handle_xpending(storage: &Arc<StorageEngine>, db: usize, parts: &[RespFra
             None
         };
         
-        // Parse IDs
-        let start = if start_str == "-" {
-            None
-        } else {
-            StreamId::from_string(&start_str)
-        };
-        
-        let end = if end_str == "+" {
-            None
-        } else {
-            StreamId::from_string(&end_str)
+        // Parse IDs: "-" / "+", complete and incomplete IDs, "(" for an exclusive bound;
+        // anything else is an error, not "unbounded"
+        let (start, end) = match (pending_bound(&start_str, true), pending_bound(&end_str, false)) {
+            (Some(start), Some(end)) => (Some(start), Some(end)),
+            _ => return Ok(RespFrame::error("ERR Invalid stream ID specified as stream command argument")),
         };
         
         // Get pending entries
@@ -982,6 +976,45 @@ pub fn handle_xpending(storage: &Arc<StorageEngine>, db: usize, parts: &[RespFra
             .collect();
         
         Ok(RespFrame::Array(Some(frames)))
+    }
+}
+
+/// A bound of the extended XPENDING form. "-" and "+" are the smallest and the greatest ID, an incomplete
+/// ID `ms` stands for `ms-0` as a start and for `ms-18446744073709551615` as an end, a leading "(" makes the
+/// bound exclusive (the next ID for a start, the previous one for an end). `None`: not a valid bound.
+fn pending_bound(text: &str, is_start: bool) -> Option<StreamId> {
+    let (exclusive, text) = match text.strip_prefix('(') {
+        Some(rest) => (true, rest),
+        None => (false, text),
+    };
+    
+    let id = if text == "-" {
+        StreamId::min()
+    } else if text == "+" {
+        StreamId::max()
+    } else if text.contains('-') {
+        StreamId::from_string(text)?
+    } else {
+        let millis = text.parse::<u64>().ok().filter(|_| text.bytes().all(|b| b.is_ascii_digit()))?;
+        StreamId::new(millis, if is_start { 0 } else { u64::MAX })
+    };
+    
+    if !exclusive {
+        Some(id)
+    } else if is_start {
+        // the next ID
+        if id.seq() < u64::MAX {
+            Some(StreamId::new(id.millis(), id.seq() + 1))
+        } else {
+            id.millis().checked_add(1).map(|millis| StreamId::new(millis, 0))
+        }
+    } else {
+        // the previous ID
+        if id.seq() > 0 {
+            Some(StreamId::new(id.millis(), id.seq() - 1))
+        } else {
+            id.millis().checked_sub(1).map(|millis| StreamId::new(millis, u64::MAX))
+        }
     }
 }
 
